@@ -396,14 +396,14 @@ func isConstOperand(bo *ssa.BinOp) bool {
 // all is sent). It has to find the syscall error anywhere in the cause chain of the network error and recognise both
 // texts.
 func checkC15BrokenConn(w *World, r *Report) {
-	ru := r.Rule("C15.6", "broken-connection classifier: connIsBroken searches the cause chain of the *net.OpError with errors.As for an *os.SyscallError (no direct type assertion of the immediate cause) and matches its lower-cased text against both \"broken pipe\" and \"connection reset by peer\"", 2)
+	ru := r.Rule("C15.6", "broken-connection classifier: connIsBroken searches the chain of the panic value with errors.As for a *net.OpError and that error's chain for an *os.SyscallError (no direct type assertion of the immediate cause) and matches its lower-cased text against both \"broken pipe\" and \"connection reset by peer\"", 2)
 	fn := w.Func("connIsBroken")
 	if fn == nil {
 		r.Unrecognised("C15.6: connIsBroken not found")
 		return
 	}
 	r.Analysed(FuncName(fn))
-	asOK, direct := false, ""
+	asOK, direct, directOp := false, "", ""
 	texts := map[string]bool{}
 	lower := false
 	eachInstr(fn, func(in ssa.Instruction) {
@@ -426,8 +426,24 @@ func checkC15BrokenConn(w *World, r *Report) {
 			if strings.HasSuffix(x.AssertedType.String(), "os.SyscallError") {
 				direct = "direct assertion to " + x.AssertedType.String() + " at " + w.Pos(x.Pos()) + ": a wrapped syscall error is not recognised"
 			}
+			if strings.HasSuffix(x.AssertedType.String(), "net.OpError") {
+				directOp = "direct assertion of the panic value to " + x.AssertedType.String() + " at " + w.Pos(x.Pos()) + ": a wrapped network error (fmt.Errorf(\"%w\"), the tls layer's permanent error) is not recognised and a 500 is written to the dead connection"
+			}
 		}
 	})
+	asOp := false
+	eachInstr(fn, func(in ssa.Instruction) {
+		if c, ok := in.(*ssa.Call); ok && isFuncNamed(calleeObj(c), "errors", "As") && len(c.Call.Args) == 2 {
+			if t, ok := stripIface(c.Call.Args[1]).Type().Underlying().(*types.Pointer); ok && strings.HasSuffix(t.Elem().String(), "net.OpError") {
+				asOp = true
+			}
+		}
+	})
+	whyOp := directOp
+	if whyOp == "" && !asOp {
+		whyOp = "no errors.As(_, **net.OpError)"
+	}
+	ru.Check("network error search in connIsBroken", w.Pos(fn.Pos()), "the panic value's chain is searched with errors.As for a *net.OpError, not asserted directly", whyOp == "", orDefault(whyOp, "errors.As over the chain"))
 	why := direct
 	if why == "" && !asOK {
 		why = "no errors.As(_, **os.SyscallError)"
